@@ -93,7 +93,7 @@ func (g *sgen) portionLit() Expr {
 		}
 		return &Percent{Text: itoa(g.r.Intn(100)) + "." + string(b) + "%"}
 	case 5: // big ratio
-		return &Ratio{Text: g.r.Pick("123456789012345678901/987654321098765432109", "1/18446744073709551616", "9223372036854775808/9223372036854775809", "00000000000000000001/3")}
+		return &Ratio{Text: g.r.Pick("123456789012345678901/987654321098765432109", "1/18446744073709551616", "9223372036854775808/9223372036854775809", "00000000000000000001/3", "100000000000000000 / 3", "1/ 300000000000000000", "123456789012345678901 /7")}
 	case 0:
 		return &Percent{Text: itoa(g.r.Intn(101)) + "%"}
 	case 1:
